@@ -11,6 +11,7 @@ import (
 	"os"
 	"path/filepath"
 	"strconv"
+	"strings"
 
 	"github.com/gin-gonic/gin"
 
@@ -18,6 +19,7 @@ import (
 	_ "kvassverif/internal/e1"
 	_ "kvassverif/internal/e3"
 	_ "kvassverif/internal/e4"
+	_ "kvassverif/internal/e5"
 	_ "kvassverif/internal/e6"
 
 	_ "github.com/prometheus/prometheus/discovery/install"
@@ -64,13 +66,21 @@ func main() {
 		total := fs.Int("total", 0, "")
 		out := fs.String("out", "", "")
 		scratch := fs.String("scratch", "", "")
+		list := fs.String("list", "", "")
+		race := fs.Bool("race", false, "")
 		_ = fs.Parse(os.Args[2:])
 		p := core.Lookup(*prop)
 		if p == nil {
 			os.Exit(4)
 		}
-		w := &core.WorkerCtx{Tier: *tier, Seed: *seed, Scratch: *scratch, Self: self}
-		os.Exit(core.WorkerMain(p, w, *from, *step, *total, *out))
+		w := &core.WorkerCtx{Tier: *tier, Seed: *seed, Scratch: *scratch, Self: self, Race: *race || p.Race}
+		var idxs []int
+		for _, f := range strings.Split(*list, ",") {
+			if n, err := strconv.Atoi(f); err == nil {
+				idxs = append(idxs, n)
+			}
+		}
+		os.Exit(core.WorkerMain(p, w, *from, *step, *total, *out, idxs))
 	case "replay":
 		if len(os.Args) < 3 {
 			os.Exit(2)
